@@ -26,11 +26,11 @@ import (
 	"github.com/uber/kraken/core"
 	"github.com/uber/kraken/gen/go/proto/p2p"
 	"github.com/uber/kraken/lib/store"
+	"github.com/uber/kraken/lib/torrent/networkevent"
 	"github.com/uber/kraken/lib/torrent/scheduler"
 	"github.com/uber/kraken/lib/torrent/scheduler/conn"
 	"github.com/uber/kraken/lib/torrent/scheduler/connstate"
 	"github.com/uber/kraken/lib/torrent/scheduler/dispatch"
-	"github.com/uber/kraken/lib/torrent/networkevent"
 	"github.com/uber/kraken/lib/torrent/storage"
 	"github.com/uber/kraken/lib/torrent/storage/agentstorage"
 	"github.com/uber/kraken/lib/torrent/storage/piecereader"
@@ -59,7 +59,9 @@ func (b *Blob) Piece(i int) []byte {
 	return b.Data[lo:hi]
 }
 
-type fakeMetaInfoClient struct{ byDigest map[core.Digest]*core.MetaInfo }
+type fakeMetaInfoClient struct {
+	byDigest map[core.Digest]*core.MetaInfo
+}
 
 func (f *fakeMetaInfoClient) Download(namespace string, d core.Digest) (*core.MetaInfo, error) {
 	if mi, ok := f.byDigest[d]; ok {
@@ -68,19 +70,37 @@ func (f *fakeMetaInfoClient) Download(namespace string, d core.Digest) (*core.Me
 	return nil, metainfoclient.ErrNotFound
 }
 
-// announceClient returns no peers; it counts calls so the harness can wait for
-// the resulting announce event.
+// announceClient returns the scripted number of (unreachable) peers, none by default; it
+// counts calls so the harness can wait for the resulting announce event.
 type announceClient struct {
-	mu    sync.Mutex
-	calls int
+	mu     sync.Mutex
+	calls  int
+	byHash map[core.InfoHash]int
+	script []int // peers handed out per call, cyclically
+	seq    int
 }
 
 func (a *announceClient) CheckReadiness() error { return nil }
 func (a *announceClient) Announce(d core.Digest, h core.InfoHash, complete bool, version int) ([]*core.PeerInfo, time.Duration, error) {
 	a.mu.Lock()
+	defer a.mu.Unlock()
+	n := 0
+	if len(a.script) > 0 {
+		n = a.script[a.calls%len(a.script)]
+	}
 	a.calls++
-	a.mu.Unlock()
-	return nil, time.Hour, nil
+	if a.byHash == nil {
+		a.byHash = map[core.InfoHash]int{}
+	}
+	a.byHash[h]++
+	var peers []*core.PeerInfo
+	for i := 0; i < n; i++ {
+		a.seq++
+		id, _ := core.PeerIDFactory(core.AddrHashPeerIDFactory).GeneratePeerID(fmt.Sprintf("10.0.2.%d", a.seq%250+1), a.seq)
+		// nobody listens on port 1: the outgoing handshake fails at once
+		peers = append(peers, core.NewPeerInfo(id, "127.0.0.1", 1, false, false))
+	}
+	return peers, time.Hour, nil
 }
 
 // FakePeer implements dispatch.Messages.
@@ -204,11 +224,12 @@ type H struct {
 	peerSeq  int
 
 	// real-socket remote peers that connect to the scheduler (Incoming)
-	selfID   core.PeerID
-	lis      net.Listener
-	inMu     sync.Mutex
-	inConns  []net.Conn
-	Remotes  []*Remote
+	selfID          core.PeerID
+	announceApplied map[core.InfoHash]int
+	lis             net.Listener
+	inMu            sync.Mutex
+	inConns         []net.Conn
+	Remotes         []*Remote
 
 	stopOnce sync.Once
 	stopDone chan struct{}
@@ -491,7 +512,45 @@ func (h *H) NoteRemoval(e scheduler.VerifPending) {
 }
 
 // ApplyID applies a pending event and lets its consequences settle.
+// SetAnnounceScript makes the fake tracker hand out script[k mod len] unreachable peers on
+// its k-th call.
+func (h *H) SetAnnounceScript(script []int) {
+	h.announce.mu.Lock()
+	h.announce.script = script
+	h.announce.mu.Unlock()
+}
+
+// AnnouncesInFlight returns how many announces of the torrent have been made whose
+// result (or error) event has not been applied yet.
+func (h *H) AnnouncesInFlight(ih core.InfoHash) int {
+	h.announce.mu.Lock()
+	defer h.announce.mu.Unlock()
+	return h.announce.byHash[ih] - h.announceApplied[ih]
+}
+
+// AnnounceGoroutines counts goroutines inside scheduler.announce (an announce that has
+// been started and has not delivered its event yet).
+func AnnounceGoroutines() int {
+	buf := make([]byte, 4<<20)
+	n := runtime.Stack(buf, true)
+	count := 0
+	for _, g := range strings.Split(string(buf[:n]), "\n\n") {
+		if strings.Contains(g, "scheduler.(*scheduler).announce(") {
+			count++
+		}
+	}
+	return count
+}
+
 func (h *H) ApplyID(e scheduler.VerifPending) {
+	if e.Kind == "announceResultEvent" || e.Kind == "announceErrEvent" {
+		h.announce.mu.Lock()
+		if h.announceApplied == nil {
+			h.announceApplied = map[core.InfoHash]int{}
+		}
+		h.announceApplied[e.InfoHash]++
+		h.announce.mu.Unlock()
+	}
 	h.NoteRemoval(e)
 	if e.Kind == "incomingHandshakeEvent" {
 		// The scheduler answers the handshake on its own goroutine and then sends the
